@@ -311,7 +311,7 @@ def main(tier):
     rep = Report("C04", tier, "model_checking")
     quick = tier == "quick"
     variant = "ossl-asan" if quick else "ossl-plain"
-    deadline = time.time() + (170 if quick else 1700)
+    deadline = time.time() + (600 if quick else 1700)
     kw = dict(news=("p2", "min", "max", "short", "long", "empty", "nul", "pfx", "so1")) if quick else dict()
     depth = 2 if quick else 3
     ex = Explorer(C04(**kw), variant=variant, deadline=deadline)
